@@ -1566,6 +1566,76 @@ namespace bloch::runtime {
                 }
             }
         }
+        // A qubit handle can be copied out of the object that owns the qubit ('qubit h = o.q;').
+        // While such a handle is reachable its owner is not garbage: sweeping it would reset and
+        // release the qubit under the handle at whatever moment the collector happens to run.
+        {
+            bool grew = true;
+            std::unordered_set<const Object*> keptForQubit;
+            while (grew) {
+                grew = false;
+                std::unordered_set<int> liveQubits;
+                auto noteValue = [&](const Value& v) {
+                    if (v.type == Value::Type::Qubit)
+                        liveQubits.insert(v.qubit);
+                    else if (v.type == Value::Type::QubitArray)
+                        liveQubits.insert(v.qubitArray.begin(), v.qubitArray.end());
+                };
+                for (const auto& scope : m_env)
+                    for (const auto& kv : scope) noteValue(kv.second.value);
+                for (const auto& kv : m_classTable)
+                    for (const auto& v : kv.second->staticStorage) noteValue(v);
+                noteValue(m_returnValue);
+                for (const auto* pending : m_pendingArgs)
+                    if (pending)
+                        for (const auto& v : *pending) noteValue(v);
+                for (const auto& obj : objects) {
+                    if (!obj->marked)
+                        continue;
+                    for (const auto& f : obj->fields) {
+                        // the object's own qubits do not keep anything else alive
+                        if (f.type == Value::Type::Qubit &&
+                            std::find(obj->ownedQubits.begin(), obj->ownedQubits.end(), f.qubit) !=
+                                obj->ownedQubits.end())
+                            continue;
+                        noteValue(f);
+                    }
+                }
+                for (const auto& obj : objects) {
+                    if (obj->marked)
+                        continue;
+                    for (int q : obj->ownedQubits) {
+                        if (liveQubits.count(q)) {
+                            markObject(obj);
+                            keptForQubit.insert(obj.get());
+                            grew = true;
+                            break;
+                        }
+                    }
+                }
+                // ... and neither is whatever still holds such an owner: clearing the holder's
+                // fields would destroy the owner just the same
+                for (const auto& obj : objects) {
+                    if (obj->marked)
+                        continue;
+                    bool holdsKept = false;
+                    for (const auto& f : obj->fields) {
+                        if (f.type == Value::Type::Object && f.objectValue &&
+                            keptForQubit.count(f.objectValue.get()))
+                            holdsKept = true;
+                        else if (f.type == Value::Type::ObjectArray)
+                            for (const auto& o : f.objectArray)
+                                if (o && keptForQubit.count(o.get()))
+                                    holdsKept = true;
+                    }
+                    if (holdsKept) {
+                        markObject(obj);
+                        keptForQubit.insert(obj.get());
+                        grew = true;
+                    }
+                }
+            }
+        }
         // Sweep unmarked non-tracked objects. An unmarked object that holds qubits is not swept
         // (its qubits are released when its last owner lets go of it), but it is garbage like the
         // rest: if sweeping its owner is what releases it, its destructor must not run at a
